@@ -80,6 +80,11 @@ CHECKS = {
     technique='TLA+/TLC: the circuit produced by the real Verilog/bench parsers (+ resolve) is validated against the ground-truth netlist of the abstract module with the hierarchical netlist semantics (TransformT.tla), all assignments enumerated as TLC states',
     text='Seeded abstract modules over cells of all five libraries (bus ports with ascending/descending/one-bit ranges, named pins incl. unconnected and constant-tied ones, multi-output cells with arbitrary outputs open, assigns with bit selects, concatenations and sized constants in b/d/h, escaped identifiers) are rendered in several equivalent textual styles (split/merged declarations, statement and pin order, whitespace, comments, attributes), parsed with the real parser for both branchforks settings and resolved. TLC requires: port names in declaration order with bus bits in declared range order, state elements in instantiation order, the same Boolean function as the ground-truth netlist over all assignments, no unresolved cell, branch forks only add forks, and the bench rendering of the same netlist is equivalent.',
     note='The text renderers and the ground-truth builder (harness/hdl.py) are trusted; lexical corner cases are sampled by style variables, not enumerated. Supported subset: flat modules, named pin connections, single-driver signals, no assign chains. <= 7 sources per module.'),
+ 'C14': dict(
+    cat='model_checking', ref='DESIGN.md §4 C14, §3 (SdfT)',
+    technique='TLA+/TLC: whole-array validation of the arrays returned by the real SDF annotation against the fold of the abstract entry list through the annotation rules (SdfT.tla)',
+    text='Abstract SDF entry lists (IOPATH/INTERCONNECT with pairwise distinct values, posedge/negedge qualifiers, empty triples, missing fields, single value lists) over circuits parsed from rendered Verilog (three libraries, both branchforks settings) are rendered with random groupings into CELL blocks - repeated blocks per instance, several top-level interconnect blocks, several DELAY sections per block, TIMINGCHECK blocks, escaped names - and parsed with the real parser. TLC folds the entries (file order, grouping ignored) into the expected [dataset, line, input polarity, output polarity] array, computing the annotated line from the structure (line feeding the pin; branch-fork or sole line for interconnects), and compares it as a whole with what iopaths()/interconnects() returned, so every other entry must be zero.',
+    note='Interconnects only where a branch fork or sole reader exists; no two entries write one cell. Values are multiples of 1/8. Renderers of the harness are trusted. Trusted: TLC, JSON reader, projection.'),
  'C07': dict(
     cat='model_checking', ref='DESIGN.md §4 C07, §3 (Schedule, ThreadOrder, SchedReplay)',
     technique='TLA+/TLC: model run of Schedule.tla on the published schedule (all Begin/End interleavings for narrow levels, level-wise static form for all); TLC-simulated thread orders (ThreadOrder.tla) replayed into the real simulators, judged by SchedReplay.tla',
